@@ -4,6 +4,7 @@
 package grl
 
 import (
+	"math"
 	"fmt"
 	"strconv"
 	"strings"
@@ -59,6 +60,9 @@ type Expr struct {
 	// Raw, when non-empty, is printed verbatim instead of the structured form (used by
 	// hand-written directed scenarios; such expressions are not interpreted by the model).
 	Raw string `json:"raw,omitempty"`
+	// Alt selects another notation of the same literal: integers 1 = hexadecimal, 2 = octal; booleans
+	// 1 = upper case, 2 = capitalised (keywords are case-insensitive). The value is the same.
+	Alt int `json:"alt,omitempty"`
 }
 
 // Action is one statement of a then-block.
@@ -151,16 +155,33 @@ func PrintExpr(e *Expr) string {
 	case "lit":
 		switch e.LitK {
 		case "int":
+			if e.Alt != 0 && e.I != 0 && e.I != math.MinInt64 {
+				sign, v := "", e.I
+				if v < 0 {
+					sign, v = "-", -v
+				}
+				if e.Alt == 1 {
+					return sign + "0x" + strings.ToUpper(strconv.FormatInt(v, 16))
+				}
+				return sign + "0" + strconv.FormatInt(v, 8)
+			}
 			return strconv.FormatInt(e.I, 10)
 		case "float":
 			return fmtFloat(e.F)
 		case "string":
 			return quote(e.S)
 		case "bool":
+			t := "false"
 			if e.B {
-				return "true"
+				t = "true"
 			}
-			return "false"
+			switch e.Alt {
+			case 1:
+				return strings.ToUpper(t)
+			case 2:
+				return strings.ToUpper(t[:1]) + t[1:]
+			}
+			return t
 		}
 	case "path":
 		return PrintPath(e.Path)
